@@ -2064,8 +2064,12 @@ class Exec:
         ck = n['castKind']
         sub = n['inner'][0]
         if ck in ('ArrayToPointerDecay',):
+            while sub['kind'] == 'ParenExpr':
+                sub = sub['inner'][0]
             if sub['kind'] == 'StringLiteral':
                 return self.ev(sub, st)
+            if sub['kind'] == 'PredefinedExpr' and sub.get('inner') and sub['inner'][0].get('kind') == 'StringLiteral':
+                return self.ev(sub['inner'][0], st)          # __func__: the string literal clang attaches to it
             return self.addr_of(self.lv(sub, st))
         if ck in ('FunctionToPointerDecay', 'BuiltinFnToFnPtr'):
             return self.ev(sub, st)
